@@ -55,7 +55,7 @@ def _reads_of(body, e, l):
         if c[0] != "call" or not c[2]:
             continue
         a = c[2][0]
-        while a[0] == "call" and re.search(r"Deref>::deref$|Vec::as_slice$|slice::<impl \[T\]>::iter$|core::slice::iter$|Vec::iter$", mir.strip_generics(a[1])) and a[2]:
+        while a[0] == "call" and re.search(r"Deref>::deref$|Vec::as_slice$|slice::<impl \[T\]>::iter$|core::slice::iter$|Vec::iter$|Iterator::(map|copied|cloned|rev)$|Iterator>::(map|copied|cloned|rev)$", mir.strip_generics(a[1])) and a[2]:
             a = a[2][0]
         if a[0] == "local" and a[1] == l and a is not c[2][0]:
             out.append(c)
@@ -170,16 +170,22 @@ def check(ctx):
     for g, h in cons.items():
         for _, s, k, tgt in h:
             ctx.ob("order", "extends the result vector", R is not None and tgt[0] == "local" and tgt[1] == R, s.loc(), "%s group appended to %s" % (g, render(tgt)))
-    # the delay anchor of the last group must be the *last* entry of the result, read after every earlier group has been appended
+    # the delay anchor of the last group must be the MAXIMUM delay handed out so far (not merely the last entry: inside a group
+    # non-QUIC/TCP transports are scheduled after the group's QUIC and TCP addresses although they are not last, and the relay
+    # group starts over at its offset), read after every earlier group has been appended
     if ok and R is not None:
         _, s_other, kind, _ = pos["other"]
         src = r.site_expr(s_other)
         reads = _reads_of(r, src, R)
-        is_last = lambda c: re.search(r"slice::<impl \[T\]>::last$|core::slice::last$|slice::last$|Iterator::(last|max)$|Iterator>::(last|max)$", mir.strip_generics(c[1])) is not None
-        ctx.ob("order", "last group's delays derive from the anchor", any(is_last(c) for c in reads), s_other.loc(), render(src)[:220])
+        is_max = lambda c: re.search(r"Iterator::(max|max_by|max_by_key)$|Iterator>::(max|max_by|max_by_key)$", mir.strip_generics(c[1])) is not None
+        is_pos = lambda c: re.search(r"slice::<impl \[T\]>::(last|first)$|core::slice::(last|first)$|slice::(last|first)$|Iterator::last$|Iterator>::last$", mir.strip_generics(c[1])) is not None
+        ctx.ob("order", "last group's delays derive from the anchor", any(is_max(c) or is_pos(c) for c in reads), s_other.loc(), render(src)[:220])
         for c in reads:
-            ctx.ob("order", "the delay anchor is the last (latest) entry of the result so far", is_last(c), s_other.loc(),
-                   "the no-IP group's delay is derived from %s" % render(c)[:140])
+            if not (is_max(c) or is_pos(c)):
+                continue
+            ctx.ob("order", "the delay anchor is the maximum delay of the result so far", is_max(c), s_other.loc(),
+                   "the no-IP group's delay is derived from %s%s" % (render(c)[:140], "" if is_max(c) else
+                   " — a positional read: the last/first entry is not the latest-scheduled one (e.g. a WebRTC address of the public group, or any public address after a relay address)"))
             for gname in ("private", "public", "relay"):
                 lib.precedes(ctx, "order", "delay anchor read after %s group appended" % gname, r, [pos[gname][0]], [c[3]],
                              "the %s group is appended before the anchor is read" % gname, s_other.loc())
